@@ -350,6 +350,7 @@ namespace Pistache::Async
                 catch (const InternalRethrow& e)
                 {
                     PISTACHE_VERIF_YIELD(36, chain_.get());
+                    std::unique_lock<std::mutex> guard(chain_->mtx);
                     chain_->exc   = e.exc;
                     chain_->state = State::Rejected;
                     PISTACHE_VERIF_YIELD(37, chain_.get());
@@ -438,6 +439,7 @@ namespace Pistache::Async
                 {
                     reject_(core->exc);
                     PISTACHE_VERIF_YIELD(39, this->chain_.get());
+                    std::unique_lock<std::mutex> guard(this->chain_->mtx);
                     for (const auto& req : this->chain_->requests)
                     {
                         PISTACHE_VERIF_YIELD(40, this->chain_.get());
@@ -450,6 +452,9 @@ namespace Pistache::Async
                 {
                     typedef typename std::decay<Ret>::type CleanRet;
                     PISTACHE_VERIF_YIELD(30, this->chain_.get());
+                    // then() on the derived promise may run concurrently: settle it and
+                    // walk its continuations under its lock, like Resolver does
+                    std::unique_lock<std::mutex> guard(this->chain_->mtx);
                     this->chain_->template construct<CleanRet>(std::forward<Ret>(ret));
                     PISTACHE_VERIF_YIELD(31, this->chain_.get());
                     for (const auto& req : this->chain_->requests)
@@ -488,6 +493,7 @@ namespace Pistache::Async
                 {
                     reject_(core->exc);
                     PISTACHE_VERIF_YIELD(39, this->chain_.get());
+                    std::unique_lock<std::mutex> guard(this->chain_->mtx);
                     for (const auto& req : this->chain_->requests)
                     {
                         PISTACHE_VERIF_YIELD(40, this->chain_.get());
@@ -500,6 +506,9 @@ namespace Pistache::Async
                 {
                     typedef typename std::remove_reference<Ret>::type CleanRet;
                     PISTACHE_VERIF_YIELD(30, this->chain_.get());
+                    // then() on the derived promise may run concurrently: settle it and
+                    // walk its continuations under its lock, like Resolver does
+                    std::unique_lock<std::mutex> guard(this->chain_->mtx);
                     this->chain_->template construct<CleanRet>(std::forward<Ret>(ret));
                     PISTACHE_VERIF_YIELD(31, this->chain_.get());
                     for (const auto& req : this->chain_->requests)
@@ -624,6 +633,7 @@ namespace Pistache::Async
                     void operator()(const PromiseType& val)
                     {
                         PISTACHE_VERIF_YIELD(33, chainCore.get());
+                        std::unique_lock<std::mutex> guard(chainCore->mtx);
                         chainCore->construct<PromiseType>(val);
                         PISTACHE_VERIF_YIELD(34, chainCore.get());
                         for (const auto& req : chainCore->requests)
@@ -651,6 +661,7 @@ namespace Pistache::Async
                     promise.then(std::move(chainer), [weakPtr](std::exception_ptr exc) {
                         if (auto core = weakPtr.lock())
                         {
+                            std::unique_lock<std::mutex> guard(core->mtx);
                             core->exc   = std::move(exc);
                             core->state = State::Rejected;
 
@@ -707,6 +718,7 @@ namespace Pistache::Async
                     void operator()(const PromiseType& val)
                     {
                         PISTACHE_VERIF_YIELD(33, chainCore.get());
+                        std::unique_lock<std::mutex> guard(chainCore->mtx);
                         chainCore->construct<PromiseType>(val);
                         PISTACHE_VERIF_YIELD(34, chainCore.get());
                         for (const auto& req : chainCore->requests)
@@ -752,7 +764,8 @@ namespace Pistache::Async
                 {
                     auto chainer = makeChainer(promise);
                     promise.then(std::move(chainer), [=](std::exception_ptr exc) {
-                        auto core   = this->chain_;
+                        auto core = this->chain_;
+                        std::unique_lock<std::mutex> guard(core->mtx);
                         core->exc   = std::move(exc);
                         core->state = State::Rejected;
 
